@@ -211,22 +211,30 @@ def c_soc_wiring():
     from litex.soc.integration.soc_core import SoCCore
     from litex.build.generic_platform import GenericPlatform
     res_ = []
-    for std in ("wishbone", "axi-lite"):
+    for std in ("wishbone", "axi-lite", "axi"):
         class Plat(GenericPlatform):
             def __init__(self): GenericPlatform.__init__(self, "dev", [])
         soc = SoCCore(Plat(), 1e6, cpu_type=None, bus_standard=std, bus_timeout=128, integrated_sram_size=0x100, with_uart=False, with_timer=False, integrated_rom_size=0)
         # a second master so that an interconnect (not point-to-point) is built
         if std == "wishbone":
-            soc.bus.add_master(name="m1", master=wishbone.Interface(data_width=32, adr_width=30))
+            m1 = wishbone.Interface(data_width=32, adr_width=30); soc.bus.add_master(name="m1", master=m1)
+        elif std == "axi":
+            m1 = axi_full.AXIInterface(data_width=32, address_width=32); soc.bus.add_master(name="m1", master=m1)
         else:
-            soc.bus.add_master(name="m1", master=axi_lite.AXILiteInterface(data_width=32, address_width=32))
+            m1 = axi_lite.AXILiteInterface(data_width=32, address_width=32); soc.bus.add_master(name="m1", master=m1)
         soc.finalize(); elab.restore_stderr()
         ic = soc.bus._interconnect
         ok = hasattr(ic, "timeout")
         if ok:
-            h = HwCheck(f"SoC({std}).bus_error-wiring", soc, [ic.timeout.error] if False else [])
+            # the added master's own signals are free inputs (an undriven signal would be the constant 0: no request, no time-out, and the
+            # wiring clause 0 == 0 would hold vacuously - harness weakness found with seeded change C11-m11); the cover shows the error can fire
+            from migen.fhdl.tools import list_targets
+            frag = soc.get_fragment(); driven = list_targets(frag)
+            h = HwCheck(f"SoC({std}).bus_error-wiring", frag, [sg for sg in (m1.flatten() if hasattr(m1, "flatten") else [x for ch in ("aw", "w", "b", "ar", "r") for x in getattr(m1, ch).flatten()]) if sg not in driven])
             st, _, be, t = h._solve(h.ts.comb_constraints() + [h.v(soc.ctrl.bus_error) != h.v(ic.timeout.error)])
             res_.append(res(f"ens.wired[{std}]", "ensures", PROVED if st == "unsat" else NOINPUT, t, be))
+            st2, _, be2, t2 = h._solve(h.ts.comb_constraints() + [h.v(ic.timeout.error) == K(1, 1)])
+            res_.append(res(f"cover.error-can-fire[{std}]", "cover", OK if st2 == "sat" else (UNKNOWN if st2 == "unknown" else VACUOUS), t2, be2))
         else:
             res_.append(res(f"ens.wired[{std}]", "ensures", NOINPUT, 0, "", info="interconnect has no timeout"))
     return dict(results=res_, functions=["litex.soc.integration.soc.SoC.finalize (bus_error wiring)"])
